@@ -69,6 +69,11 @@ pub const U: &[UVal] = &[
     UVal { label: "[1]+{k:2}", ctor: "rock @ with 1\nlet @ at \"k\" be 2\n" },
     UVal { label: "[mysterious]", ctor: "let @ at 0 be mysterious\n" },
     UVal { label: "[[[1]]]", ctor: "let @ at 0 at 0 at 0 be 1\n" },
+    // arrays holding values that are not equal to themselves / that coerce
+    UVal { label: "[NaN]", ctor: "rock @ with 0 over 0\n" },
+    UVal { label: "[1,[NaN]]", ctor: "rock w@ with 0 over 0\nrock @ with 1\nrock @ with w@\n" },
+    UVal { label: "{k:NaN}", ctor: "let @ at \"k\" be 0 over 0\n" },
+    UVal { label: "[\"1\"]", ctor: "rock @ with \"1\"\n" },
 ];
 
 /// a smaller universe for cubic families: one value per kind plus the sharpest boundaries
